@@ -1,6 +1,6 @@
 // h_c33 — property C33 "peer input can never crash the node".
 //
-// Every op line is an *abstract* peer input (the line the Lean driver drv_c33 reads). The executor
+// Every op line is an *abstract* peer input (the line the Lean driver drv_c33 reads). The Executor
 // (exec.go) concretises it into real protobuf messages / stream bytes, pushes them through the real
 // receive paths of /repo (handleBroadcastReceive with its recover, the bodies of the background loops
 // pendBlockLoop / blockRequestLoop / manageDeniedPeer stepped one tick at a time, the pubsub topic
@@ -22,6 +22,7 @@ import (
 	"github.com/33cn/chain33/types"
 
 	"verifharness/internal/gen"
+	"verifharness/internal/p2pexec"
 	"verifharness/internal/p2pv"
 )
 
@@ -39,19 +40,19 @@ func pred(sig, detail string) {
 
 // a scenario is buffered and only emitted when it ran within the clock margin (see clock())
 type scenario struct {
-	e     *executor
+	e     *p2pexec.Executor
 	lines [][2]string
 	start time.Time
 }
 
 func (s *scenario) op(line string) string {
-	res := s.e.exec(line, nil)
+	res := s.e.Exec(line, nil)
 	s.lines = append(s.lines, [2]string{line, res})
 	return res
 }
 
 func (s *scenario) opLt(line string, lb *types.LightBlock) string {
-	res := s.e.exec(line, lb)
+	res := s.e.Exec(line, lb)
 	s.lines = append(s.lines, [2]string{line, res})
 	return res
 }
@@ -74,7 +75,7 @@ func (s *scenario) flush(kind string) {
 	out.Stat("ops", int64(len(s.lines)))
 }
 
-func begin(e *executor, multi bool) *scenario {
+func begin(e *p2pexec.Executor, multi bool) *scenario {
 	s := &scenario{e: e, start: time.Now()}
 	m := 0
 	if multi {
@@ -86,14 +87,14 @@ func begin(e *executor, multi bool) *scenario {
 
 func main() {
 	os.Stdout, _ = os.OpenFile(os.DevNull, os.O_WRONLY, 0) // HandlerWithClose prints stack traces to stdout
-	logs.install()
+	p2pexec.Logs.Install()
 	if c := os.Getenv("VERIF_CHILD"); c != "" {
 		child(c)
 		return
 	}
 	defer out.Flush()
-	e := newExecutor(pred)
-	defer e.close()
+	e := p2pexec.New(pred)
+	defer e.Close()
 	if lines := gen.ReplayLines(); lines != nil {
 		s := &scenario{e: e, start: time.Now()}
 		if len(lines) > 0 && !strings.HasPrefix(lines[0], "reset") {
@@ -134,30 +135,30 @@ func main() {
 		out.Op("child pendloop", runChild("pendloop"))
 		out.Op("child deniedloop", runChild("deniedloop"))
 	}
-	out.Stat("recovered_panics", int64(e.recPan))
+	out.Stat("recovered_panics", int64(e.RecPan))
 	out.Sample("lt <key> <hasHeader> <height> <txCount> <miner> <sender> <sTxHashes> / tick / breq / bresp / vblock / dlold … : " +
 		"abstract peer inputs concretised into real messages; outcome (panic|posted|queued|…) compared with the Lean model")
 }
 
 // ---------------------------------------------------------------- scripted witnesses (also in corpus/)
 
-func witnesses(e *executor) {
+func witnesses(e *p2pexec.Executor) {
 	// S-C33: light block of 3 slots whose last short hash is that of a 2-transaction group that reaches the pool later
 	s := begin(e, false)
-	s.op("pool push " + e.reg.sh(1) + " 1 -")
-	s.op(fmt.Sprintf("lt k1 1 10 3 0 2 %s,%s,%s", e.reg.sh(0), e.reg.sh(1), e.reg.sh(20)))
+	s.op("pool push " + e.Reg.Sh(1) + " 1 -")
+	s.op(fmt.Sprintf("lt k1 1 10 3 0 2 %s,%s,%s", e.Reg.Sh(0), e.Reg.Sh(1), e.Reg.Sh(20)))
 	s.op("tick")
-	s.op("pool push " + e.reg.sh(20) + " 20 20,21")
+	s.op("pool push " + e.Reg.Sh(20) + " 20 20,21")
 	res := s.op("tick")
 	out.Sample("witness S-C33: queued light block + late pooled group at the tail slot → tick: " + res)
 	s.flush("witness")
 	// txCount = 0 and txCount > len(hashes): panics under the recover of handleBroadcastReceive
 	s = begin(e, false)
-	s.op("lt k2 1 10 0 0 2 " + e.reg.sh(0))
-	s.op("lt k3 1 10 4 0 2 " + e.reg.sh(0) + "," + e.reg.sh(1))
+	s.op("lt k2 1 10 0 0 2 " + e.Reg.Sh(0))
+	s.op("lt k3 1 10 4 0 2 " + e.Reg.Sh(0) + "," + e.Reg.Sh(1))
 	s.op("lt k4 0 0 0 - 2 -")
-	s.op("lt k5 1 10 -1 0 2 " + e.reg.sh(0))
-	s.op("lt k6 1 10 4611686018427387904 0 2 " + e.reg.sh(0))
+	s.op("lt k5 1 10 -1 0 2 " + e.Reg.Sh(0))
+	s.op("lt k6 1 10 4611686018427387904 0 2 " + e.Reg.Sh(0))
 	s.flush("witness")
 	// two p2p types configured: the same block answer delivered twice queues a nil message; the next tick of
 	// manageDeniedPeer dereferences it
@@ -176,9 +177,9 @@ func witnesses(e *executor) {
 
 // ---------------------------------------------------------------- light blocks
 
-func shOf(e *executor, id int) string { return e.reg.sh(id) }
+func shOf(e *p2pexec.Executor, id int) string { return e.Reg.Sh(id) }
 
-func ltScenario(e *executor, r *gen.Rand, multi bool) {
+func ltScenario(e *p2pexec.Executor, r *gen.Rand, multi bool) {
 	s := begin(e, multi)
 	defer s.flush("lt")
 	nBlocks := 1 + r.Intn(3)
@@ -308,7 +309,7 @@ func ltScenario(e *executor, r *gen.Rand, multi bool) {
 		if r.Chance(1, 8) {
 			s.op("pool up 0")
 		}
-		res := s.op(fmt.Sprintf("lt %s %d %d %d %s %d %s", key, hasHeader, height, txCount, miner, r.Intn(nPeers), joinOr(hashes, ",")))
+		res := s.op(fmt.Sprintf("lt %s %d %d %d %s %d %s", key, hasHeader, height, txCount, miner, r.Intn(p2pexec.NPeers), p2pexec.JoinOr(hashes, ",")))
 		out.Stat("lt_"+strings.Fields(res)[0], 1)
 		s.op("pool up 1")
 		keyN++
@@ -363,7 +364,7 @@ func joinInts(l []int) string {
 
 // ---------------------------------------------------------------- block request / response messages
 
-func peerMsgScenario(e *executor, r *gen.Rand, multi bool) {
+func peerMsgScenario(e *p2pexec.Executor, r *gen.Rand, multi bool) {
 	s := begin(e, multi)
 	defer s.flush("peermsg")
 	cur := int64(3 + r.Intn(6))
@@ -381,7 +382,7 @@ func peerMsgScenario(e *executor, r *gen.Rand, multi bool) {
 			}
 		case 1:
 			h := []int64{0, -1, cur, cur - 1, cur + 1, cur + 3, 1, -(1 << 62), 1 << 62}[r.Intn(9)]
-			if s.op(fmt.Sprintf("breq %d %d", r.Intn(nPeers), h)) == "panic" {
+			if s.op(fmt.Sprintf("breq %d %d", r.Intn(p2pexec.NPeers), h)) == "panic" {
 				out.Stat("breq_panic_recovered", 1)
 			}
 		case 2:
@@ -405,7 +406,7 @@ func peerMsgScenario(e *executor, r *gen.Rand, multi bool) {
 			if r.Bool() {
 				s.op("gossip " + k)
 			} else {
-				s.op(fmt.Sprintf("blk %s %d", k, r.Intn(nPeers)))
+				s.op(fmt.Sprintf("blk %s %d", k, r.Intn(p2pexec.NPeers)))
 			}
 		case 7:
 			if s.op("dtick") == "panic" {
@@ -421,7 +422,7 @@ func peerMsgScenario(e *executor, r *gen.Rand, multi bool) {
 
 // ---------------------------------------------------------------- topic validators
 
-func validatorScenario(e *executor, r *gen.Rand) {
+func validatorScenario(e *p2pexec.Executor, r *gen.Rand) {
 	s := begin(e, false)
 	defer s.flush("validator")
 	base := int64(r.Intn(400))
@@ -442,7 +443,7 @@ func validatorScenario(e *executor, r *gen.Rand) {
 			if r.Chance(1, 10) {
 				self = 1
 			}
-			s.op(fmt.Sprintf("vblock %d %d %d b%dh%d %d", self, r.Intn(nPeers), dec, b, h, h))
+			s.op(fmt.Sprintf("vblock %d %d %d b%dh%d %d", self, r.Intn(p2pexec.NPeers), dec, b, h, h))
 		case 1:
 			id := 1 + r.Intn(12)
 			ok := 1 - id%2
@@ -453,12 +454,12 @@ func validatorScenario(e *executor, r *gen.Rand) {
 				id := 1 + r.Intn(14)
 				w = append(w, fmt.Sprintf("%d:%d", id, 1-id%2))
 			}
-			s.op(fmt.Sprintf("vbatch %d %d %s", b2i(r.Chance(1, 10)), b2i(!r.Chance(1, 6)), joinOr(w, ",")))
+			s.op(fmt.Sprintf("vbatch %d %d %s", b2i(r.Chance(1, 10)), b2i(!r.Chance(1, 6)), p2pexec.JoinOr(w, ",")))
 		case 3:
-			s.op(fmt.Sprintf("vpeer %d", r.Intn(nPeers)))
+			s.op(fmt.Sprintf("vpeer %d", r.Intn(p2pexec.NPeers)))
 		case 4:
 			dn++
-			s.op(fmt.Sprintf("deny %d d%d", r.Intn(nPeers), dn+1000*r.Intn(1000)))
+			s.op(fmt.Sprintf("deny %d d%d", r.Intn(p2pexec.NPeers), dn+1000*r.Intn(1000)))
 		}
 	}
 }
@@ -472,7 +473,7 @@ func b2i(b bool) int {
 
 // ---------------------------------------------------------------- stream protocols
 
-func streamScenario(e *executor, r *gen.Rand) {
+func streamScenario(e *p2pexec.Executor, r *gen.Rand) {
 	s := begin(e, false)
 	defer s.flush("stream")
 	rds := []string{"msg", "msg", "msg", "zero", "err"}
@@ -536,10 +537,10 @@ func mutate(r *gen.Rand, b []byte) []byte {
 }
 
 // abstractLt is the abstraction function: decoded light block → the op line the model reads
-func abstractLt(e *executor, lb *types.LightBlock, sender int) (string, bool) {
+func abstractLt(e *p2pexec.Executor, lb *types.LightBlock, sender int) (string, bool) {
 	key := "-"
 	if h := lb.GetHeader().GetHash(); len(h) > 0 {
-		key = "f" + e.reg.token(string(h))
+		key = "f" + e.Reg.Token(string(h))
 		if strings.HasPrefix(string(h), "key-") {
 			key = string(h)[4:]
 		}
@@ -550,34 +551,34 @@ func abstractLt(e *executor, lb *types.LightBlock, sender int) (string, bool) {
 	}
 	miner := "-"
 	if lb.MinerTx != nil {
-		miner = fmt.Sprint(e.reg.idOf(lb.MinerTx))
+		miner = fmt.Sprint(e.Reg.IDOf(lb.MinerTx))
 	}
 	var hs []string
 	for _, h := range lb.STxHashes {
-		hs = append(hs, e.reg.token(h))
+		hs = append(hs, e.Reg.Token(h))
 	}
 	for _, w := range append([]string{key}, hs...) {
 		if strings.ContainsAny(w, " \t\n,") {
 			return "", false
 		}
 	}
-	return fmt.Sprintf("lt %s %d %d %d %s %d %s", key, b2i(lb.Header != nil), lb.GetHeader().GetHeight(), cnt, miner, sender, joinOr(hs, ",")), true
+	return fmt.Sprintf("lt %s %d %d %d %s %d %s", key, b2i(lb.Header != nil), lb.GetHeader().GetHeight(), cnt, miner, sender, p2pexec.JoinOr(hs, ",")), true
 }
 
-func byteFuzzScenario(e *executor, r *gen.Rand) {
+func byteFuzzScenario(e *p2pexec.Executor, r *gen.Rand) {
 	s := begin(e, false)
 	defer s.flush("bytefuzz")
 	s.op("pool push " + shOf(e, 1) + " 1 -")
 	s.op("pool push " + shOf(e, 30) + " 30 30,31")
-	base := &types.LightBlock{Size: 100, Header: &types.Header{Hash: []byte("key-z"), Height: 4, TxCount: 3}, MinerTx: e.reg.tx(0),
+	base := &types.LightBlock{Size: 100, Header: &types.Header{Hash: []byte("key-z"), Height: 4, TxCount: 3}, MinerTx: e.Reg.Tx(0),
 		STxHashes: []string{shOf(e, 0), shOf(e, 1), shOf(e, 30)}}
-	raw := e.lt.EncodeMsg(base)
+	raw := e.LT.EncodeMsg(base)
 	for i := 0; i < 40; i++ {
 		m := mutate(r, raw)
-		msg := e.lt.NewMsg(broadcast.VerifLtBlockTopic)
+		msg := e.LT.NewMsg(broadcast.VerifLtBlockTopic)
 		var err error
-		if pi := guard(func() { err = e.lt.DecodeMsg(m, msg) }); pi != nil {
-			e.unrecovered("handleSubMsg", pi, fmt.Sprintf("decodeMsg %x", m))
+		if pi := p2pexec.Guard(func() { err = e.LT.DecodeMsg(m, msg) }); pi != nil {
+			e.Unrecovered("handleSubMsg", pi, fmt.Sprintf("decodeMsg %x", m))
 			continue
 		}
 		if err != nil {
@@ -601,25 +602,25 @@ func byteFuzzScenario(e *executor, r *gen.Rand) {
 		s.op("tick")
 	}
 	// the other topics: decode + receive must not escape the recover; validators must not panic
-	blk := &types.Block{Height: 5, TxHash: []byte("t"), Txs: []*types.Transaction{e.reg.tx(1), e.reg.tx(2)}}
-	txs := &types.Transactions{Txs: []*types.Transaction{e.reg.tx(3), e.reg.tx(4)}}
+	blk := &types.Block{Height: 5, TxHash: []byte("t"), Txs: []*types.Transaction{e.Reg.Tx(1), e.Reg.Tx(2)}}
+	txs := &types.Transactions{Txs: []*types.Transaction{e.Reg.Tx(3), e.Reg.Tx(4)}}
 	pm := &types.PeerPubSubMsg{MsgID: broadcast.VerifBlockRespID, ProtoMsg: types.Encode(blk)}
 	for _, c := range []struct {
 		topic string
 		m     types.Message
-	}{{broadcast.VerifBlockTopic, blk}, {broadcast.VerifBatchTxTopic, txs}, {broadcast.VerifTxTopic, e.reg.tx(5)}, {"peermsg/x", pm}} {
-		raw := e.lt.EncodeMsg(c.m)
+	}{{broadcast.VerifBlockTopic, blk}, {broadcast.VerifBatchTxTopic, txs}, {broadcast.VerifTxTopic, e.Reg.Tx(5)}, {"peermsg/x", pm}} {
+		raw := e.LT.EncodeMsg(c.m)
 		for i := 0; i < 25; i++ {
 			m := mutate(r, raw)
-			if pi := guard(func() {
-				e.lt.Validate(c.topic, e.ids[1], e.psMsg(c.topic, e.ids[1], m))
+			if pi := p2pexec.Guard(func() {
+				e.LT.Validate(c.topic, e.IDs[1], e.PsMsg(c.topic, e.IDs[1], m))
 			}); pi != nil {
-				e.unrecovered("pubsub-validator", pi, fmt.Sprintf("%s %x", c.topic, m))
+				e.Unrecovered("pubsub-validator", pi, fmt.Sprintf("%s %x", c.topic, m))
 			}
-			msg := e.lt.NewMsg(c.topic)
+			msg := e.LT.NewMsg(c.topic)
 			var err error
-			if pi := guard(func() { err = e.lt.DecodeMsg(m, msg) }); pi != nil {
-				e.unrecovered("handleSubMsg", pi, fmt.Sprintf("decodeMsg %s %x", c.topic, m))
+			if pi := p2pexec.Guard(func() { err = e.LT.DecodeMsg(m, msg) }); pi != nil {
+				e.Unrecovered("handleSubMsg", pi, fmt.Sprintf("decodeMsg %s %x", c.topic, m))
 				continue
 			}
 			if err != nil || c.topic == broadcast.VerifTxTopic || c.topic == broadcast.VerifBatchTxTopic {
@@ -627,17 +628,17 @@ func byteFuzzScenario(e *executor, r *gen.Rand) {
 			}
 			topic := c.topic
 			if topic == "peermsg/x" {
-				topic = e.lt.PeerTopic(e.cur.Env.Host.ID())
+				topic = e.LT.PeerTopic(e.Cur.Env.Host.ID())
 			}
-			if pi := guard(func() { e.lt.Receive(topic, msg, e.ids[1], e.ids[1]) }); pi != nil {
-				e.unrecovered("handleBroadcastReceive", pi, fmt.Sprintf("%s %x", c.topic, m))
+			if pi := p2pexec.Guard(func() { e.LT.Receive(topic, msg, e.IDs[1], e.IDs[1]) }); pi != nil {
+				e.Unrecovered("handleBroadcastReceive", pi, fmt.Sprintf("%s %x", c.topic, m))
 			}
 			out.Stat("bytefuzz_received", 1)
 		}
 	}
-	e.takePosts()
-	if pi := guard(e.lt.DeniedTick); pi != nil {
-		e.unrecovered("manageDeniedPeer", pi, "after byte fuzz")
+	e.TakePosts()
+	if pi := p2pexec.Guard(e.LT.DeniedTick); pi != nil {
+		e.Unrecovered("manageDeniedPeer", pi, "after byte fuzz")
 	}
 }
 
@@ -694,22 +695,22 @@ func firstLine(s string) string {
 }
 
 func child(kind string) {
-	reg := newRegistry()
+	reg := p2pexec.NewRegistry()
 	ids := p2pv.PeerIDs(77, 4)
 	switch kind {
 	case "pendloop":
 		w := p2pv.NewWorld(p2pv.Options{HostSeed: 9})
 		lt := broadcast.VerifNewLt(w.Env) // default timeout 1000 ms
 		lt.StartLoops()
-		w.PoolPush(reg.tx(1), reg.tx(1).Hash())
-		lb := &types.LightBlock{Header: &types.Header{Hash: []byte("child"), Height: 10, TxCount: 3}, MinerTx: reg.tx(0),
-			STxHashes: []string{reg.sh(0), reg.sh(1), reg.sh(20)}}
+		w.PoolPush(reg.Tx(1), reg.Tx(1).Hash())
+		lb := &types.LightBlock{Header: &types.Header{Hash: []byte("child"), Height: 10, TxCount: 3}, MinerTx: reg.Tx(0),
+			STxHashes: []string{reg.Sh(0), reg.Sh(1), reg.Sh(20)}}
 		lt.Receive(broadcast.VerifLtBlockTopic, lb, ids[0], ids[0])
 		if lt.PendLen() != 1 {
 			os.Exit(0) // not queued: nothing for the loop to do
 		}
-		head := reg.poolEntry(20, []int{20, 21})
-		w.PoolPush(head, reg.tx(20).Hash())
+		head := reg.PoolEntry(20, []int{20, 21})
+		w.PoolPush(head, reg.Tx(20).Hash())
 		// the loop ticks every 200 ms; it either dies or removes the block (rebuilt or timed out after 1 s)
 		for lt.PendLen() > 0 {
 			time.Sleep(50 * time.Millisecond)
@@ -717,7 +718,7 @@ func child(kind string) {
 		os.Exit(0)
 	case "deniedloop":
 		w := p2pv.NewWorld(p2pv.Options{HostSeed: 9, P2PTypes: []string{"dht", "gossip"}})
-		w.Env.ConnBlackList = &lru{}
+		w.Env.ConnBlackList = &p2pexec.Lru{}
 		lt := broadcast.VerifNewLt(w.Env)
 		lt.StartLoops()
 		blk := &types.Block{Height: 5, TxHash: []byte("child")}
